@@ -21,6 +21,8 @@ SKIP_KEYS = {"Q"}
 
 def plain_values(rng):
     k = rng.random()
+    if k < 0.12:
+        return rng.choice([[[1, 2], [3, 4], [5, 6]], [[1, 2], [3]], [[1, 2, 3], [4, 5, 6]], [[2, 0], [0, 2]], [[1], [2], [3]]])
     if k < 0.25:
         return [rng.randint(0, 5) for _ in range(rng.randint(1, 5))]
     if k < 0.4:
@@ -81,13 +83,18 @@ def observe_elem(case):
     return ev
 
 
+GARR_READ = "garr-read"      # {V}⅛¾ : the value pushed by ¾ must stay ⟨V⟩ whatever happens to the global array later
+
 COPY_OPS = {
+    "garr-read": ("{V}⅛¾{E}", "garr-read"),
     ":": ("{V}:{E}", "stack"), "D": ("{V}D{E}", "stack"), "Ḃ": ("{V}Ḃ{E}", "stack-bifurcate"),
     "var": ("{V}→a ←a ←a {E}", "var"), "reg": ("{V}:£{E}", "reg"), "garr": ("{V}:⅛{E}", "garr"),
 }
-MUTATORS = ["0 9Ȧ", "1 7Ȧ", "λ+;Ḟ3Ẏ", "›", "Ṙ", "s", "U", "f", "1 2Ȧ_", "J", "0 5Ȧ0 6Ȧ", "ḣ", "ṫ", "Ṫ", "Ḣ", "h", "t", "¦", "ė", "z",
+MUTATORS = ["2⅛", "¼_", "3⅛4⅛", "ÞḊ", "ÞḊ_", "∩", "ÞṪ", "Þ/", "ÞD", "Þ\\", "ÞṀ", "Þ•", "ÞM", "Þm", "G", "g", "ÞC", "ṁ", "∆M",
+            "0 9Ȧ", "1 7Ȧ", "λ+;Ḟ3Ẏ", "›", "Ṙ", "s", "U", "f", "1 2Ȧ_", "J", "0 5Ȧ0 6Ȧ", "ḣ", "ṫ", "Ṫ", "Ḣ", "h", "t", "¦", "ė", "z",
             "3ẋ", "2ẇ", "∑", "vd", "ƛd;", "⁽›M", "0 1Ȧ", "2 0Ȧ", "λ*;Ḟ2Ẏ_", "Ṗ", "ṗ", "y", "p", "9p", "w", "1ȯ", "2Ẏ", "Ż", "ǔ", "Ǔ"]
-VALUES = [("⟨1|2|3⟩", [1, 2, 3]), ("3ɾ", [1, 2, 3]), ("⟨⟨1|2⟩|⟨3⟩⟩", [[1, 2], [3]]), ("4ʁ", [0, 1, 2, 3]), ("⟨5|6⟩ƛ›;", [6, 7]),
+VALUES = [("⟨⟨1|2⟩|⟨3|4⟩|⟨5|6⟩⟩", [[1, 2], [3, 4], [5, 6]]), ("⟨⟨1|2|3⟩|⟨4|5|6⟩⟩", [[1, 2, 3], [4, 5, 6]]),
+          ("⟨1|2|3⟩", [1, 2, 3]), ("3ɾ", [1, 2, 3]), ("⟨⟨1|2⟩|⟨3⟩⟩", [[1, 2], [3]]), ("4ʁ", [0, 1, 2, 3]), ("⟨5|6⟩ƛ›;", [6, 7]),
           ("⟨3|1|2⟩", [3, 1, 2]), ("2ɾ3ɾ\"", [[1, 2], [1, 2, 3]])]
 
 
@@ -120,7 +127,7 @@ def observe_prog(case):
                     c08.tagged(r)
                 except BaseException:  # noqa: BLE001
                     pass
-            want = c08.tagged(plain)
+            want = c08.tagged([plain] if where == "garr-read" else plain)
             for name, obj in kept:
                 if copyop == "Ḃ" and name == "stack1":
                     continue        # the second entry of bifurcate is the reversed value, not a copy
@@ -153,6 +160,17 @@ def main(tier):
         vtext, plain = rng.choice(VALUES)
         cop = rng.choice(list(COPY_OPS))
         seq = [rng.choice(MUTATORS) for _ in range(rng.randint(1, 3))]
+        cs.append(("prog", vtext, plain, cop, seq))
+    # broad tails: any monad / dyad of the element table applied to the copy (dyads get a literal argument)
+    import vyxal.elements as EL
+    mon = [k for k in keys if EL.elements[k][1] == 1 and k not in ("Ė", "E", "†", "Q", "¨U", ",", "…", "₴", "¨,", "¨…")]
+    dya = [k for k in keys if EL.elements[k][1] == 2 and k not in ("Ḟ",)]
+    for _ in range(nprog):
+        vtext, plain = rng.choice(VALUES)
+        cop = rng.choice(list(COPY_OPS))
+        seq = []
+        for _ in range(rng.randint(1, 2)):
+            seq.append(rng.choice(mon) if rng.random() < 0.6 else rng.choice(["2 ", "0 ", "1 ", "⟨1|2⟩"]) + rng.choice(dya))
         cs.append(("prog", vtext, plain, cop, seq))
     # variables: the variable is pushed twice in phase 1, so two references to the SAME object are retained
     for _ in range(nprog // 4):
